@@ -21,6 +21,9 @@ def main():
             out["c02_default"] = fid(m.Holder())
             out["c02_same_as_default"] = fid(m.Holder(sub=m.A(x=1)))
             out["c02_meta_param_differs"] = fid(m.Holder(sub=m.A(x=1, verbose=True)))
+            # C03: a task output equal to the default: the producing task is signature relevant
+            out["c03_output_of_e1"] = fid(m.Holder(sub=m.Prod(e=1).submit(run_mode=RunMode.DRY_RUN)))
+            out["c03_output_of_e2"] = fid(m.Holder(sub=m.Prod(e=2).submit(run_mode=RunMode.DRY_RUN)))
             # C14 / C17: the identifier before and after sealing, and where the generated paths go
             t = m.TD()
             out["c14_before"] = fid(t)
